@@ -1602,18 +1602,27 @@ class C15(Check):
     extra_targets = ["WntrModel.Model.AmlModel"]
     manifest = dict(
         category="proof",
-        text="Lean theorems for all expression trees, all operator lists (with repeated operators) and all add/remove histories: "
-        "the RPN the Python layer emits, run by the C++ stack machine, equals direct evaluation (rpn_correct, getRpn_correct); the overload "
-        "shortcuts preserve values (constant_folding_sound); reverse_sd equals the formal derivative D (reverseSd_is_derivative); reference counts, "
-        "C-object liveness, value preservation and index numbering are invariants of every history (registration_refcount_inv, set_structure_indices). "
-        "The models are tied to the code on every run: reflected operator lists / trees / RPN / derivative trees and whole Model histories are "
-        "replayed through the Lean driver and diffed against the real aml.Model with the evaluator compiled from the tree's C++ sources; an independent "
-        "dual-number oracle judges residuals, Jacobian, indices and reference counts on the implementation.",
+        text="Lean theorems (Props/C15.lean) for ALL expression trees, ALL Python operator lists (an operator used twice occurs twice) and ALL "
+        "add/remove/set-value/set_structure histories: the RPN emitted by the repaired get_rpn, run by the C++ stack machine, equals direct evaluation "
+        "(rpn_correct, rpn_correct_conditional, getRpn_correct, getRpn_total); the overload shortcuts preserve values (constant_folding_sound; the one "
+        "that does not, 0**x at x=0, is kept as ConstantFoldingFull + counterexample); reverse_sd equals the formal derivative D for every well-formed "
+        "operator list incl. repeated operators (reverseSd_is_derivative) and D is the analytic derivative (HasDerivAt) on the polynomial/rational fragment "
+        "(D_is_analytic_derivative_rational); reference counts = mentions by registered constraints, C object iff count > 0, registration never fails, "
+        "values survive removal (registration_refcount_inv, refcount_eq_number_of_constraints, cobject_iff_refcount_pos, register_never_fails, "
+        "values_survive_removal); set_structure numbers variables/constraints 0..n-1 without gaps or repeats (set_structure_unique_indices) and residual / "
+        "CSR rows of PLAIN constraints are the constraint's own programs on its own leaves with col_ndx/row_nnz as reported (csr_rows_partial, "
+        "row_entries_are_eval_and_derivative). The pre-fix defects stay visible as counterexample theorems (getRpn_asCoded_counterexample, "
+        "reverseSd_asCoded_counterexample, register_asCoded_counterexample). The models are tied to the code on every run: reflected operator lists / trees / "
+        "RPN / derivative trees and whole Model histories are replayed through the Lean driver and diffed against the real aml.Model with the evaluator "
+        "compiled from the tree's C++ sources; an independent dual-number oracle judges residuals, Jacobian, indices and reference counts on the implementation.",
         design_ref="DESIGN.md §5 C15, §4 M6",
-        note="modelled, not verified: IEEE arithmetic and libm (theorems are over a field with abstract pow/exp/log/trig; Float only in the driver, "
+        note="modelled, not verified: IEEE arithmetic and libm (theorems are over a field with abstract pow/exp/log/trig, `LawfulOps`; Float only in the driver, "
         "compared at 1e-10..1e-12 relative); pointer order of std::set is an abstract address order fed from the real pointers; Float leaves are "
-        "represented by value inside the C++ constraint model; SWIG marshalling is exercised, not modelled; that D is the analytic derivative is proved "
-        "for the polynomial/rational fragment only",
+        "represented by value inside the C++ constraint model; SWIG marshalling is exercised, not modelled. NOT proved: the CSR rows of conditional "
+        "(IfElse) constraints (condition_ndx/jac_ndx strides are modelled and compared with the C++ on every run only); that the leaves vector of a "
+        "registered constraint resolves to the right C objects (address injectivity) is a hypothesis of row_entries_are_eval_and_derivative; D is connected to "
+        "Mathlib's analytic derivative for the polynomial/rational fragment only; reverseSd_is_derivative has the domain side condition sdDomAll "
+        "(no power whose base folded to the native number 0; native if_else conditions are 0/1)",
         technique="Lean 4 proofs over hand models + differential runs against the Lean driver + independent oracle on the implementation",
     )
     rule = (
